@@ -81,6 +81,9 @@ ASSUMPTIONS = [
     "invocation and its return, so over-admission is reported only for a set of calls whose whole [clock at invoke, "
     "clock at return] intervals fit in one 60 s window; 'passed the rate check' = allowed or refused with a reported "
     "signature match; clock moves inside the threads family are forward only",
+    "threads family, rule hot-reload shape: add_signature() runs concurrently with filter(); only signatures whose "
+    "registration had returned before a filter() call was invoked are demanded of that call (threshold fixed, "
+    "signatures only added)",
     "threads family: the membrane keeps 2 of the 19 built-in signatures (public `signatures` list shortened) so that "
     "schedules concentrate on the shared state; the unlocked statistics counters are not judged",
 ]
@@ -88,7 +91,7 @@ EXPECT_PROBES = ("flood_refused_over_1024", "case_pair_both_active", "rejudged_a
                  "audit_cleared", "learned_blocked", "imported_blocked", "forgot_then_allowed", "case_pair_blocked",
                  "embed_pair_blocked", "long_input", "deep_json", "ctrl_input", "surrogate_input", "cooldown_low",
                  "cooldown_ended", "innate_structural_block", "clock_backward", "threshold_relaxed", "learn_refused_non_adaptive",
-                 "observer_raised", "inflammation_observer_raised", "replay_after_raising_observer", "threads_run", "threads_preempted_in_filter", "threads_one_slot_left", "threads_rate_refused",
+                 "observer_raised", "inflammation_observer_raised", "replay_after_raising_observer", "threads_signature_added", "threads_filter_with_active_hit", "threads_run", "threads_preempted_in_filter", "threads_one_slot_left", "threads_rate_refused",
                  "threads_edge_crossed", "threads_replay_blocked", "preempted_while_holding_a_lock", "lock_blocked")
 
 WINDOW = 60.0
@@ -949,7 +952,26 @@ SRC = None
 KEEP_BUILTINS = 2     # the threads family keeps a short signature list so that schedules concentrate on shared state
 
 
+def _gen_threads_rules(rng, tier):
+    """Rule hot-reload while other callers filter: one task registers signatures (add_signature), the others filter
+    inputs that match signatures which were already active before they asked."""
+    c0 = rng.choice([q for q in range(len(CUSTOM)) if q != ONE_LETTER])
+    cfg = {"rate": None, "threshold": rng.choice([1, 2, 2, 3]), "custom": [[c0, 3]], "shape": "rules",
+           "keep": rng.choice([2, 4, 8]), "strategy": dict(weighted(rng, STRATEGIES))}
+    known = [["mi", q, 0, 0, 0] for q in range(2)] + [["cu", c0, 0, rng.randrange(len(BENIGN)), 0]]
+    tasks = [[["addsig", rng.choice([q for q in range(len(CUSTOM)) if q != ONE_LETTER]), rng.choice([1, 2, 3])]
+              for _ in range(rng.randint(1, 3))]]
+    for t in range(rng.choice([1, 1, 2])):
+        tasks.append([["f", rng.choice(known)] for _ in range(rng.randint(1, 3))])
+    if rng.random() < 0.4:
+        tasks[-1].insert(rng.randrange(len(tasks[-1]) + 1), ["addsig", rng.randrange(9), rng.choice([1, 3])])
+    rng.shuffle(tasks)
+    return {"family": "threads", "config": cfg, "pre": [], "tasks": tasks}
+
+
 def _gen_threads(rng, tier):
+    if rng.random() < 0.25:
+        return _gen_threads_rules(rng, tier)
     replay = rng.random() < 0.3
     rate = rng.choice([None, 3]) if replay else rng.choice([1, 1, 2, 2, 3])
     cfg = {"rate": rate, "threshold": 2, "custom": [], "strategy": dict(weighted(rng, STRATEGIES))}
@@ -1032,7 +1054,10 @@ def _run_threads(plan, k):
     m = Membrane(signatures=[ThreatSignature(CUSTOM[i][0], ML(l), f"custom {i}", CUSTOM[i][1]) for i, l in cfg["custom"]] or None,
                  threshold=ML(cfg["threshold"]), rate_limit=rate, silent=quiet())
     nb = len(Membrane.INNATE_SIGNATURES)
-    m.signatures[:] = m.signatures[:KEEP_BUILTINS] + m.signatures[nb:]
+    m.signatures[:] = m.signatures[:cfg.get("keep", KEEP_BUILTINS)] + m.signatures[nb:]
+    # signatures the harness knows to be active, with the stamp from which they certainly are
+    active = [(sg.pattern, sg.level.value, sg.is_regex, 0) for sg in m.signatures]
+    judge_rules = cfg.get("shape") == "rules"       # threshold fixed, signatures only ever added
     for name, v in vars(m).items():
         if type(v).__module__ in ("_thread", "threading"):
             raise HarnessError(f"Membrane.{name} is a real {type(v).__name__}: the threading seam moved")
@@ -1057,6 +1082,18 @@ def _run_threads(plan, k):
             raise HarnessError(f"unexpected outcome {out.kind} of filter() inside a scheduled task")
         res = out.value
         ret = k.ev("ret", [who, bool(res.allowed), res.threat_level.name, len(res.matched_signatures)])
+        if judge_rules:
+            # a signature whose registration had returned before this call was invoked is active for the whole call
+            due = [a for a in active if a[3] < inv and ref_match(a[0], a[2], x)]
+            if any(a[1] >= cfg["threshold"] for a in due):
+                k.probe("threads_filter_with_active_hit")
+                if res.allowed:
+                    a = [a for a in due if a[1] >= cfg["threshold"]][0]
+                    k.violation("allow_sound", "allowed_with_signature_hit", "membrane:concurrent",
+                                f"pattern={a[0]!r} level={a[1]} threshold={cfg['threshold']} was active before the call")
+            if due and res.threat_level.value < max(a[1] for a in due):
+                k.violation("level", "not_max_over_matches", "membrane:concurrent",
+                            f"reported {res.threat_level.name}, signatures active before the call reach level {max(a[1] for a in due)}")
         hist.append({"x": x, "inv": inv, "ret": ret, "lo": lo, "hi": hi, "res": res,
                      "passed": bool(res.allowed or res.matched_signatures)})
 
@@ -1076,6 +1113,17 @@ def _run_threads(plan, k):
         elif op[0] == "thr":
             m.set_threshold(ML(op[1]))
             k.ev("thr", [who, op[1]])
+        elif op[0] == "addsig":
+            c, lvl = op[1], op[2]
+            k.ev("addsig_inv", [who, c, lvl])
+            out = call(m.add_signature, ThreatSignature(CUSTOM[c][0], ML(lvl), f"added {c}", CUSTOM[c][1]))
+            if out.kind == "raised":
+                k.violation("total", f"raised:{type(out.exc).__name__}", "membrane:concurrent", "add_signature")
+                return
+            if out.kind != "ok":
+                raise HarnessError(f"unexpected outcome {out.kind} of add_signature() inside a scheduled task")
+            active.append((CUSTOM[c][0], lvl, CUSTOM[c][1], k.ev("addsig_ret", [who, c])))
+            k.probe("threads_signature_added")
         else:
             raise ValueError(op)
 
@@ -1092,7 +1140,7 @@ def _run_threads(plan, k):
         def f():
             me = sched.cur
             for op in ops:
-                me.op = op[0] if op[0] == "f" else None
+                me.op = op[0] if op[0] in ("f", "addsig") else None
                 do_op(ti, op)
                 me.op = None
         return f
